@@ -11,6 +11,7 @@ PROP = {
         "Multi.C15.front_ends",
         "Multi.dft_inversion",
     ],
+    "hooks": ["count_large_sizes"],
     "harnesses": [
         {"name": "fftw", "src": "fftw.cpp", "flags": ["-O1", "-g"], "libs": ["-lfftw3", "-ldl"], "modes": ["x"], "driver": "mmdrv_fft",
          "programs": {"quick": 16000, "thorough": 720000}},
@@ -26,7 +27,7 @@ PROP = {
         "extents >= 1 (FFTW returns a null plan for empty transforms; the adaptor asserts on it)",
         "in-place use = the library's own in-place overload (output view identical to the input view)",
     ],
-    "rule": ("programs = common extents (D 1..4, sizes 1..9 incl. non-powers of two, <= 360 elements) + an input and an output view carved from two roots by random "
+    "rule": ("programs = common extents (D 1..4, sizes 1..9 incl. non-powers of two, <= 360 elements; in about 4% of the programs one dimension of size 16|17|32|33|64|65|128|129 with the others 1..3) + an input and an output view carved from two roots by random "
              "rotations/transpositions/reversal, padding (sliced) and strides + 1..3 transforms (mask drawn from all 2^D subsets, both signs, API dft / dft_forward|backward / "
              "in-place overload / forward-backward round trip); distinct = different program text; non-trivial = some transform over >= 2 points"),
     "level_text": "Theorems (all D, all masks, both signs, all pairs of well-formed views of equal extents with arbitrary strides, in-place included; coefficient type and twiddle family abstract): the guru call built by fftw_plan_dft pairs every size with its own input and output stride and puts exactly the masked dimensions into dims; under FFTW's documented guru semantics the post-state of the output view is the direct unnormalised DFT of the input VIEW along exactly the masked dimensions, batched over the others, and memory outside the output view (hence a distinct input) is unchanged; from orthogonality of the twiddles, forward followed by backward multiplies every element by the number of transformed points (proved for all D via a separable inversion argument over a commutative ring). The model is tied to /repo by interposed capture of the real guru call plus an O(N^2) reference, guard and input checks.",
@@ -64,8 +65,36 @@ def finding_key(program, impl_lines, model_lines):
 def _observable(lines):
     """everything but the captured FFTW plan (how the adaptor describes the transform to FFTW is implementation detail: two different
     guru plans can denote the same transform); the property is about the numbers that come out and the frame"""
-    return [l for l in lines if not l.startswith("plan ")]
+    return [l for l in lines if not (l.startswith("plan ") or l.startswith("unexpected "))]
 
 
 def property_fails(impl_lines, model_lines):
     return _observable(impl_lines) != _observable(model_lines)
+
+
+def count_large_sizes(ctx):
+    """how many transforms with a dimension of size >= 16 (around powers of two up to 129) the run made: size-dependent shortcuts in
+    the adaptor can only be seen beyond the small sizes"""
+    import glob, os
+    total, transformed, by_n = 0, 0, {}
+    for f in glob.glob(os.path.join(ctx["build"], "impl.fftw.*.out")):
+        for l in open(f, errors="replace"):
+            if not l.startswith("plan "):
+                continue
+            try:
+                parts = l.split("|")
+                dims = [int(t.split(",")[0]) for t in parts[0].split(":")[1].split()]
+                hm = [int(t.split(",")[0]) for t in parts[1].split(":")[1].split()]
+            except (ValueError, IndexError):
+                continue
+            big = [n for n in dims + hm if n >= 16]
+            if big:
+                total += 1
+                by_n[str(max(big))] = by_n.get(str(max(big)), 0) + 1
+                if any(n >= 16 for n in dims):
+                    transformed += 1
+    stats = {"plans_with_a_dimension_ge_16": total, "of_which_transformed_along_it": transformed, "by_size": dict(sorted(by_n.items(), key=lambda kv: int(kv[0])))}
+    if transformed < 100:
+        return {"violations": [{"key": "C15:generator:large-sizes-not-reached", "what": f"only {transformed} transforms along a dimension of size >= 16: size-dependent code paths are not exercised"}],
+                "stats": stats, "obligations": 1, "discharged": 0}
+    return {"violations": [], "stats": stats, "obligations": 1, "discharged": 1}
